@@ -38,8 +38,8 @@ Proof. intros H; exact H. Qed.
 
 Lemma map_unchanged l : forallb kw_unchanged l = true -> map kw_strip l = l.
 Proof.
-  induction l as [|x l IH]; cbn; intros H; [reflexivity|]. apply andb_true_iff in H. destruct H as [H1 H2].
-  apply str_eqb_eq in H1. rewrite H1, IH; auto.
+  induction l as [|x l IH]; cbn [map forallb]; intros H; [reflexivity|]. apply andb_true_iff in H. destruct H as [H1 H2].
+  apply str_eqb_eq in H1. rewrite (IH H2). exact (f_equal (fun y => y :: l) H1).
 Qed.
 
 Lemma class_pass_names c G O pass st all_mode classes reader :
